@@ -21,7 +21,7 @@ theorem inv_afterLink (s : FState) (P : List Id) (b : Blk) (c : Option (List Ent
     have := isPath_present _ _ _ hI.path x hx
     rw [hxe, hf] at this; cases this
   refine ⟨hI.libNe, wf_append _ _ hI.wf hb hf, heights_append _ _ hI.heights hb hB,
-    isPath_append_entry _ _ _ _ hI.path hf, hI.libNotin, ?_, hI.topSome, ?_, hc, hI.initOk⟩
+    isPath_append_entry _ _ _ _ hI.path hf, hI.libNotin, ?_, hI.topSome, ?_, hc, hI.initOk, hI.seen⟩
   · intro x hx
     show isSent (appendBlk s.db b) x = true
     rw [isSent_append_other _ _ _ (hPne x hx)]; exact hI.pSent x hx
@@ -176,7 +176,7 @@ theorem processBlock_step (cfg : Config) (hnew : cfg.matches .new = true) (hundo
         -- the invariant after the deliveries, with the whole chain pending
         have hI2 : Inv a.st ((lcA ++ lcB).map (·.blk.id)) := by
           refine ⟨by rw [hsame.1]; exact hI1.libNe, Forkable.SameBlks.wf hsame hI1.wf, Forkable.SameBlks.heights hsame hI1.heights,
-            ?_, ?_, ?_, ?_, ?_, ?_, ?_⟩
+            ?_, ?_, ?_, ?_, ?_, ?_, ?_, by rw [hout.seen, hsame.1]; exact hI1.seen⟩
           · rw [hsame.1, hsame.isPath, hs3lib, hs3db, ← hlc]; exact hp
           · rw [hsame.1, hs3lib, ← hlc]; exact hn
           · intro x hx
